@@ -77,6 +77,15 @@ func Corpus() []CorpusCase {
 		file(foo, "a", object("BarRequest", prop("x", str("string"))), object("User", prop("r", objRef("", "BarRequest")))),
 		file(foo, "b", &Element{Kind: "service", Service: &Service{Name: "Foo", Methods: []*Method{{
 			Name: "Bar", Verb: "POST", Path: "/bar", Request: []*Property{prop("fooId", str("string"))}}}}}))
+	// optional arrays and maps (fix d536c9b: plain repeated fields, not proto3_optional; known-findings audit L128)
+	add("optional-array-map", "foo.v1", file(foo, "a",
+		object("Foo",
+			&Property{Name: "tags", Optional: true, F: &Field{Kind: "array", Item: str("string")}},
+			&Property{Name: "labels", Optional: true, F: &Field{Kind: "map", Item: str("string")}},
+			&Property{Name: "kids", Optional: true, F: &Field{Kind: "array", Item: obj(prop("kidId", key("id62")))}},
+			&Property{Name: "byName", Optional: true, F: &Field{Kind: "map", Item: obj(prop("v", str("string")))}},
+			&Property{Name: "note", Optional: true, F: str("string")},
+			prop("plain", &Field{Kind: "array", Item: str("string")}))))
 	// two imports without alias that claim the same short name: the short name means the package imported last
 	for k := 0; k < 6; k++ {
 		v1, v2 := []string{"foo", "v1"}, []string{"foo", "v2"}
